@@ -313,12 +313,25 @@ def check(ctx):
     # ---- R6 bounded growth --------------------------------------------------
     tidy = repo.method("AsyncTasks", "_tidy")
     ok = False
+    gt = cfg_of(tidy)
     for n in ast.walk(tidy.node):
         if isinstance(n, ast.Assign) and ast.unparse(n.targets[0]) == "self._tasks" and isinstance(n.value, ast.ListComp):
             comp = n.value
             gen = comp.generators[0]
             if ast.unparse(gen.iter) == "self._tasks" and gen.ifs and ast.unparse(gen.ifs[0]).replace(" ", "") in (f"not{ast.unparse(gen.target)}.done()",):
                 ok = True
+        elif isinstance(n, ast.Assign) and ast.unparse(n.targets[0]) == "self._tasks" and isinstance(n.value, ast.Name):
+            # explicit-loop idiom: acc = []; for t in self._tasks: if not t.done(): acc.append(t); self._tasks = acc
+            acc = n.value.id
+            for an, ac in gt.nodes_calling("append"):
+                if receiver(ac) != acc:
+                    continue
+                lp = gt.loop_of(an)
+                if lp is not None and lp.kind == "for" and ast.unparse(lp.ast.iter) == "self._tasks" and ast.unparse(ac.args[0]) == ast.unparse(lp.ast.target):
+                    facts = gt.guard_atoms(an, entry=lp, cut_back=True)
+                    if (f"{ast.unparse(lp.ast.target)}.done()", False) in facts and len([x for x in gt.guards(an, entry=lp, cut_back=True) if x[0] is not lp]) == 1:
+                        inits = [m for m in gt.stmt_nodes() if isinstance(m.ast, ast.Assign) and ast.unparse(m.ast.targets[0]) == acc and isinstance(m.ast.value, ast.List) and not m.ast.value.elts]
+                        ok = bool(inits) and all(gt.dom(m, lp) for m in inits)
     ctx.ob("R6", "AsyncTasks._tidy::drops-done-tasks", ok, "_tidy does not rebind self._tasks to the not-done subset (task list grows with every reconnect)", tidy.loc)
     tidy_started = any(fi.qual == "AsyncTasks.__aenter__" and isinstance(n.args[0], ast.Call) and call_name(n.args[0]) == "_tidy" for fi, n, k in adds if n.args)
     ctx.ob("R6", "AsyncTasks.__aenter__::starts-tidy", tidy_started, "the tidy task is not started on context entry")
